@@ -133,6 +133,56 @@ def check_settings(cs, col, kind, all_matrices_cap=6000):
     except Exception as e:  # noqa
         info = D.exc_info(e)
         col.violation('count_exception', cs, info, [], where={'exc': info['type'], 'site': info['site']})
+    # order independence of the public entry points: from a cold cache, enumerate ONE pattern first, then count and
+    # enumerate everything with the same and with a fresh generator (the entry points share on-disk caches)
+    if len(pats) > 1:
+        rnd = gen.rng_for('c09order', S.digest(cs))
+        try:
+            genr.reset_agg_matrix_cache()
+            g4 = mx.AggregateAssignmentMatrixGenerator(B.make_settings(cs))
+            p0 = pats[rnd.randrange(len(pats))]
+            col.count('monitor_order_evaluations')
+            first = rnd.choice(['iter_matrices', 'iter_n', 'count_then_iter'])
+            col.count('order_first_' + first)
+            if first == 'iter_n':
+                list(g4.iter_n_sources_targets(existence=B.make_existence(p0)))
+            else:
+                if first == 'count_then_iter':
+                    g4.count_all_matrices()
+                it = sorted(tuple(tuple(int(v) for v in row) for row in m)
+                            for m, _ in g4.iter_matrices(existence=B.make_existence(p0)))
+                if it != sorted(R.settings_matrices(cs, p0)):
+                    col.violation('enumeration_differs_from_brute_force', cs,
+                                  {'pattern': p0, 'n_ref': len(R.settings_matrices(cs, p0)), 'n_got': len(it),
+                                   'order': first}, [], where={'dir': 'order_first', 'order': first})
+            for gx, label in ((g4, 'same_generator'),
+                              (mx.AggregateAssignmentMatrixGenerator(B.make_settings(cs)), 'fresh_generator')):
+                o_sum = gx.count_all_matrices(max_by_existence=False)
+                o_max = gx.count_all_matrices(max_by_existence=True)
+                if o_sum != total or o_max != biggest:
+                    col.violation('count_differs_from_enumeration', cs,
+                                  {'count_sum': o_sum, 'count_max': o_max, 'enumerated_sum': total,
+                                   'enumerated_max': biggest, 'order': first, 'generator': label}, [],
+                                  where={'cache': 'after_single_pattern'})
+                    break
+                agg2 = gx.get_agg_matrix(cache=True)
+                bad = None
+                for p in pats:
+                    arr = agg2.get(B.make_existence(p))
+                    got2 = set() if arr is None else {tuple(tuple(int(v) for v in row) for row in m) for m in arr}
+                    if got2 != set(R.settings_matrices(cs, p)):
+                        bad = {'pattern': p, 'n_ref': len(set(R.settings_matrices(cs, p))), 'n_got': len(got2),
+                               'order': first, 'generator': label, 'first_pattern': p0}
+                        break
+                if bad:
+                    col.violation('enumeration_differs_from_brute_force', cs, bad, [],
+                                  where={'dir': 'after_single_pattern'})
+                    break
+            g4.reset_agg_matrix_cache()
+        except Exception as e:  # noqa
+            info = D.exc_info(e)
+            col.violation('agg_matrix_exception', cs, info, [], where={'exc': info['type'], 'site': info['site'],
+                                                                       'phase': 'order'})
     if nontrivial:
         col.nontrivial.add(S.digest(cs))
         if len(col.samples) < 2:
